@@ -23,6 +23,17 @@ IsMsgDef(d) == d.d \in {"struct", "exception", "union"}
 \* one unknown field per wire type (ids no corpus schema uses)
 UnknownOf(t) == Fld(IF t = T_BOOL THEN 4000 ELSE 4000 + t, RepAny(t))
 UnkTypes == IF Tier = "thorough" THEN ElemTypes ELSE {T_BOOL, T_I32, T_BINARY, T_STRUCT, T_LIST, T_MAP, T_UUID, T_DOUBLE}
+\* further unknown-field shapes: maps whose keys and values are fixed-size with DIFFERENT widths, fixed-size elements,
+\* empty containers, containers of containers, a struct holding such a map (the skippers have fast paths for these)
+I32L(n) == Leaf("i32", FromInt(n, 32))
+UnkShapes == << Map(T_I32, T_I64, << <<I32L(1), Leaf("i64", P2(34))>>, <<I32L(2), Leaf("i64", ZeroInt(64))>>, <<I32L(3), Leaf("i64", P2(41))>> >>),
+                Map(T_I64, T_BOOL, << <<Leaf("i64", P2(34)), Leaf("bool", <<1>>)>>, <<Leaf("i64", P2(41)), Leaf("bool", <<0>>)>> >>),
+                Map(T_UUID, T_I8, << <<Leaf("uuid", Fill(16, 7)), Leaf("i8", <<1>>)>> >>),
+                Map(T_BINARY, T_I32, << <<Leaf("binary", <<97>>), I32L(5)>>, <<Leaf("binary", <<>>), I32L(6)>> >>),
+                Map(T_I32, T_STRUCT, << <<I32L(1), RepStruct>>, <<I32L(2), EmptyStruct>> >>),
+                Map(T_I16, T_I16, <<>>), List(T_STRUCT, <<>>), List(T_DOUBLE, <<Leaf("double", <<63,248,0,0,0,0,0,0>>), Leaf("double", <<0,0,0,0,0,0,0,1>>)>>),
+                SetV(T_UUID, <<Leaf("uuid", Fill(16, 1)), Leaf("uuid", Fill(16, 2))>>), List(T_LIST, <<List(T_I8, <<Leaf("i8", <<1>>)>>), List(T_I8, <<>>)>>),
+                Struct(<<Fld(1, Map(T_I8, T_I64, << <<Leaf("i8", <<1>>), Leaf("i64", P2(34))>> >>)), Fld(2, Leaf("bool", <<1>>))>>) >>
 
 InsAt(s, i, e) == SubSeq(s, 1, i) \o <<e>> \o SubSeq(s, i + 1, Len(s))
 RemAt(s, i) == SubSeq(s, 1, i - 1) \o SubSeq(s, i + 1, Len(s))
@@ -39,6 +50,7 @@ EvoSeq(w) ==
   \o SeqOfSet({[how |-> "remove", w |-> Struct(RemAt(w.fs, i))] : i \in 1..n})
   \o SeqOfSet({[how |-> "retype", w |-> Struct([w.fs EXCEPT ![i] = Fld(w.fs[i].id, Retyped(w.fs[i].x))])] : i \in 1..n})
   \o (IF n >= 2 THEN <<[how |-> "reorder", w |-> Struct(Rvs(w.fs))]>> ELSE <<>>)
+  \o [i \in 1..Len(UnkShapes) |-> [how |-> "add-shape", w |-> Struct(InsAt(w.fs, IF i % 2 = 0 THEN 0 ELSE n, Fld(4100 + i, UnkShapes[i])))]]
   \o (IF n >= 1 THEN <<[how |-> "add-two", w |-> Struct(<<UnknownOf(T_I32)>> \o w.fs \o <<UnknownOf(T_BINARY), UnknownOf(T_STRUCT)>>)]>> ELSE <<>>)
   \* evolve a nested struct field (first field whose value is a struct)
   \o (LET idx == {i \in 1..n : w.fs[i].x.k = "struct"} IN
